@@ -778,3 +778,34 @@ VP("R8-gnorms-shape-of-argument", ["C17"], _S % "C17-r5s2", "normaliser uses the
 VP("R8-cap-falsy", ["C20", "C03"], _S % "C20-r5s2", "iteration cap 0 treated as no cap", kind="break")
 VP("R8-bag-cursor-per-partition", ["C16", "C12"], _S % "C16-r5s2", "label cursor advanced once per partition", kind="break")
 VP("R8-floors-alias-prior", ["C19", "C05"], _S % "C19-r5s2", "variance floors of the prior not copied", kind="break")
+
+# ---- round 9: seeded changes of the sixth round (hoisted quantities, state carried between blocks / iterations / calls, dtypes taken
+# from the wrong array, orders that differ only for unusual ids) that led to new rules, and benign twins of those rules ------------
+VP("R9-int-reciprocal", ["C01"], _S % "C01-r6s2", "np.reciprocal of variances that may be stored as integers", kind="break")
+VP("R9-stale-work-buffer", ["C02"], _S % "C02-r6s1", "scratch buffer refilled through a prefix view and read whole", kind="break")
+VP("R9-block-count-clamped", ["C04"], _S % "C04-r6s1", "per-block count clamped before pooling", kind="break")
+VP("R9-block-bincount-no-minlength", ["C04"], _S % "C04-r6s2", "per-block counts without minlength", kind="break")
+VP("R9-mstep-inherits-centroid-dtype", ["C06"], _S % "C06-r6s2", "M-step fills a copy of the previous centroids", kind="break")
+VP("R9-offsets-accumulate-over-blocks", ["C08"], _S % "C08-r6s2", "block loop carries the centre from block to block", kind="break")
+VP("R9-dprod-constant", ["C09", "C07"], _S % "C09-r6s2", "D' Sigma^-1 D replaced by 1 / relevance_factor in a helper that returns a pair", kind="break")
+VP("R9-tct-not-recomputed", ["C10"], _S % "C10-r6s2", "T' Sigma^-1 T computed once when sigma is kept", kind="break")
+VP("R9-lengths-of-other-bag", ["C12"], _S % "C12-r6s2", "partition lengths taken from the labels bag", kind="break")
+VP("R9-wccn-zeros-like-data", ["C14"], _S % "C14-r6s1", "class means stored into zeros_like(X)", kind="break")
+VP("R9-wccn-set-vs-sorted", ["C14", "C16"], _S % "C14-r6s2", "means stacked in set order, read in sorted order", kind="break")
+VP("R9-init-centred-data", ["C15", "C20"], _S % "C15-r6s2", "cluster statistics of centred data against uncentred centroids", kind="break")
+VP("R9-hidden-fit-state", ["C18"], _S % "C18-r6s2", "convergence state kept on the object between calls", kind="break")
+VP("R9-init-means-cast", ["C20"], _S % "C20-r6s1", "initial means cast to the dtype of the data", kind="break")
+VP("R9-weights-from-clamped-counts", ["C20"], _S % "C20-r6s2", "weights from clamped counts", kind="break")
+V("R9-lwl-reciprocal-raw", ["C01"], "gmm", "(data - machine.means[i]) ** 2 / machine.variances[i]", "(data - machine.means[i]) ** 2 * np.reciprocal(machine.variances[i])", "reciprocal in the dtype the variances are stored in")
+V("R9-lwl-reciprocal-float", ["C01"], "gmm", "(data - machine.means[i]) ** 2 / machine.variances[i]", "(data - machine.means[i]) ** 2 * np.reciprocal(machine.variances[i].astype(float))", "reciprocal of an explicitly floating-point copy", kind="benign")
+V("R9-lwl-reciprocal-dtype", ["C01"], "gmm", "(data - machine.means[i]) ** 2 / machine.variances[i]", "(data - machine.means[i]) ** 2 * np.reciprocal(machine.variances[i], dtype=float)", "reciprocal with dtype=float", kind="benign")
+V("R9-estep-bincount-no-minlength", ["C04", "C06"], "kmeans", "np.bincount(closest_k_indices, minlength=n_clusters)", "np.bincount(closest_k_indices)", "per-block counts as long as the largest label seen")
+V("R9-estep-bincount-positional", ["C04", "C06"], "kmeans", "np.bincount(closest_k_indices, minlength=n_clusters)", "np.bincount(closest_k_indices, None, n_clusters)", "minlength passed by position", kind="benign")
+V("R9-init-means-float-array", ["C20"], "gmm", "self.means = copy.deepcopy(kmeans_machine.centroids_)", "self.means = np.array(kmeans_machine.centroids_, dtype=float)", "copy spelled np.array(..., dtype=float): the centroids are float64", kind="benign")
+V2("R9-dprod-helper-pair", ["C09", "C07"], [dict(module="factor_analysis", old="        dt_inv_sigma = self._D / self.variance_supervector\n        dt_inv_sigma_d = dt_inv_sigma * self._D\n", new="        dt_inv_sigma, dt_inv_sigma_d = self._compute_dprod()\n", count=2), dict(module="factor_analysis", old="    def _compute_id_plus_d_prod_i(self", new="    def _compute_dprod(self):\n        dt_inv_sigma = self._D / self.variance_supervector\n        return (dt_inv_sigma, dt_inv_sigma * self._D)\n\n    def _compute_id_plus_d_prod_i(self")], "the two D products computed by a helper that returns them as a pair", kind="benign")
+V2("R9-dprod-helper-pair-swapped", ["C09", "C07"], [dict(module="factor_analysis", old="        dt_inv_sigma = self._D / self.variance_supervector\n        dt_inv_sigma_d = dt_inv_sigma * self._D\n", new="        dt_inv_sigma, dt_inv_sigma_d = self._compute_dprod()\n", count=2), dict(module="factor_analysis", old="    def _compute_id_plus_d_prod_i(self", new="    def _compute_dprod(self):\n        dt_inv_sigma = self._D / self.variance_supervector\n        return (dt_inv_sigma, np.full_like(dt_inv_sigma, 1.0 / self.relevance_factor))\n\n    def _compute_id_plus_d_prod_i(self")], "the helper returns a constant for D' Sigma^-1 D")
+
+# ---- sixth generic sweep (seed 6): the two semantic survivors ----------------------------------------------------------------------
+V("F6-iv-count-subtracted", ["C10"], "ivector", "stats.nij = stats.nij + Nij", "stats.nij = stats.nij - Nij", "the sample's counts are subtracted from the accumulator")
+V("F6-iv-sigma-plus", ["C10"], "ivector", "(stats.snormij - fnorm_sigma_wij_tt)", "(stats.snormij + fnorm_sigma_wij_tt)", "the part explained by T is added to the centred second-order statistics")
+V("F6-iv-sigma-neg-form", ["C10"], "ivector", "(stats.snormij - fnorm_sigma_wij_tt)", "(-fnorm_sigma_wij_tt + stats.snormij)", "same difference, other order", kind="benign")
